@@ -177,7 +177,7 @@ def eval_list_helpers(fns):
 
 def list_helpers(em):
     snippet = lit.table(em, "LIST_HELPER_SNIPPET")
-    names = sorted(set(re.findall(r"\b(__redu_(?:make_list|list_\w+|len))\s*\(", snippet)))
+    names = sorted(set(re.findall(r"\b(__redu_\w+)\s*\(", snippet)))     # every helper the snippet defines or calls (shared inline helpers too)
     drv = ("#include <Arduino.h>\n" + snippet + "\n" + lit.table(em, "LEN_HELPER_SNIPPET") + """
 void use() {
   __redu_list<int> a = __redu_make_list<int>(1, 2, 3);
@@ -371,7 +371,7 @@ def run(cx):
     r.check(has_dtor and has_copy and has_assign, "__redu_list/rule-of-three", (em.rel, line), f"__redu_list owns `T *data` (new[]) but declares destructor={has_dtor}, copy-constructor={has_copy}, copy-assignment={has_assign}: `b = a` shares one buffer (use after free once either is reassigned/appended) and `x = [..]` inside loop() leaks the old buffer each pass")
 
     # ---- C09-PAIR ----------------------------------------------------------------------------
-    r = cx.rule("C09-PAIR", "in every helper a by-reference list's data pointer is only overwritten after delete[] of the old buffer, every new[] result is stored into a data field (or a local that is), no helper stores one list's data pointer into another list, (self-assignment and deep copy are decided by evaluation in C09-BOUNDS)", floor=4)
+    r = cx.rule("C09-PAIR", "in every helper a by-reference list's data pointer is only overwritten after delete[] of the old buffer, every new[] result is stored into a data field (or a local that is), no helper stores one list's data pointer into another list, (self-assignment and deep copy are decided by evaluation in C09-BOUNDS)", floor=2)
     for n, variants in fns.items():
         f = variants[-1]
         byref = {p for p, t in f["params"] if t and "&" in t and "const" not in t and "__redu_list" in t}
